@@ -112,6 +112,10 @@ type Knobs struct {
 	// BigReg: a registration that already holds more records than a genesis export carries
 	// (the newest 20,000), injected through genesis with identifier Start-1 and an owner that never signs
 	BigReg *BigReg `json:"big_reg,omitempty"`
+	// UnbackedLocked: the enterprise section of the genesis document claims this much locked eFUND
+	// (for actor 3) although the bank section holds nothing for the escrow account - a document a
+	// node must refuse (or at least import without creating coins)
+	UnbackedLocked string `json:"unbacked_locked,omitempty"`
 }
 
 type BigReg struct {
@@ -269,6 +273,11 @@ func BuildGenesis(k *Knobs, actors []*Actor) (json.RawMessage, []abci.ValidatorU
 	eg.TotalSpent = sdk.NewInt64Coin(k.Ent.Denom, 0)
 	for _, w := range k.Whitelist {
 		eg.Whitelist = append(eg.Whitelist, actors[w].Bech())
+	}
+	if k.UnbackedLocked != "" {
+		c := sdk.NewCoin(k.Ent.Denom, mustInt(k.UnbackedLocked))
+		eg.TotalLocked = c
+		eg.LockedUnd = append(eg.LockedUnd, enttypes.LockedUnd{Owner: actors[3].Bech(), Amount: c})
 	}
 	gs[enttypes.ModuleName] = cdc.MustMarshalJSON(eg)
 
